@@ -18,6 +18,13 @@ Scen(T, cb, L, bad, kill, s) ==
 MCScen == UNION {{Scen(T, cb, L, bad, kill, s) : cb \in FileCallbacks, L \in {NONE} \cup 0..MaxL, bad \in {NONE} \cup 0..T,
                                                  kill \in BOOLEAN, s \in 0..1} : T \in 1..MaxT}
 
+\* start-up failures (not part of a listed property's wording beyond "any failure leaves none"; see MC_Startup cfg)
+StartupScen == {[Scen(T, cb, NONE, NONE, FALSE, 0) EXCEPT !.cb = c] @@ [startup |-> st] :
+                  T \in {1}, cb \in {"csvdump"}, c \in Callbacks, st \in {"ok", "badrange", "nodump", "nodir", "noindex"}}
+ObsS == [cb |-> sc.cb, startup |-> Startup, exit |-> exit, tmps |-> Cardinality(DOMAIN tmp), finals |-> Cardinality(DOMAIN fin),
+         delivered |-> Len(delivered)]
+EmitS == Done => PrintT(<<"REPLAY", ToJson(ObsS)>>)
+
 \* a fault inside the range makes the run fail; faults outside the range do not matter
 FaultInRange == sc.bad # NONE /\ sc.bad >= sc.start
 FaultFails == (Done /\ FaultInRange /\ exit # 137) => exit = 1 /\ errH = sc.bad /\ fin = <<>>
